@@ -245,7 +245,11 @@ func oracles(sc Scenario, ex Exec) []failure {
 		}
 		for _, i := range is[1:] {
 			if ex.Responses[i].TxID != ex.Responses[is[0]].TxID {
-				add("C07", "same-key-different-outcome", fmt.Sprintf("key %q: tx %s and tx %s", k, ex.Responses[is[0]].TxID, ex.Responses[i].TxID))
+				sig := "same-key-different-outcome"
+				if sc.Reqs[i].Kind != sc.Reqs[is[0]].Kind {
+					sig += ":idempotency-key-stored-by-another-kind-of-write"
+				}
+				add("C07", sig, fmt.Sprintf("key %q: tx %s and tx %s", k, ex.Responses[is[0]].TxID, ex.Responses[i].TxID))
 			}
 		}
 	}
@@ -266,7 +270,16 @@ func oracles(sc Scenario, ex Exec) []failure {
 			}
 		}
 		if !found {
-			add("C06", "acknowledged-but-not-persisted:"+r.Kind, fmt.Sprintf("request %d (%s) answered success with %d entries on disk, none of them its own", i, r.Kind, resp.Persisted))
+			sig := "acknowledged-but-not-persisted:" + r.Kind
+			if r.IK != "" {
+				for _, l := range ex.Disk {
+					if l.IdempotencyKey == r.IK && !matchesKind(r, l) {
+						sig += ":idempotency-key-stored-by-another-kind-of-write"
+						break
+					}
+				}
+			}
+			add("C06", sig, fmt.Sprintf("request %d (%s) answered success with %d entries on disk, none of them its own", i, r.Kind, resp.Persisted))
 		}
 	}
 	_ = produced
@@ -369,6 +382,28 @@ func oracles(sc Scenario, ex Exec) []failure {
 			if !ok {
 				add("C16", "committed-event-without-persisted-entry", fmt.Sprintf("event for tx %s published with %d entries on disk, none matching", p.Tx.ID, len(p.Persisted)))
 			}
+		case "saved_metadata", "deleted_metadata":
+			ok := false
+			for _, l := range p.Persisted {
+				switch l.Data.(type) {
+				case ledger.SetMetadataLogPayload:
+					ok = ok || p.Kind == "saved_metadata"
+				case ledger.DeleteMetadataLogPayload:
+					ok = ok || p.Kind == "deleted_metadata"
+				}
+			}
+			if !ok {
+				sig := "metadata-event-without-persisted-entry"
+				if p.Tid >= 0 && p.Tid < len(sc.Reqs) && sc.Reqs[p.Tid].IK != "" {
+					for _, l := range p.Persisted {
+						if l.IdempotencyKey == sc.Reqs[p.Tid].IK && !matchesKind(sc.Reqs[p.Tid], l) {
+							sig += ":idempotency-key-stored-by-another-kind-of-write"
+							break
+						}
+					}
+				}
+				add("C16", sig, fmt.Sprintf("%s event published with no such entry on disk", p.Kind))
+			}
 		case "reverted":
 			ok := false
 			for _, l := range p.Persisted {
@@ -417,7 +452,16 @@ func oracles(sc Scenario, ex Exec) []failure {
 	}
 	for i, r := range ex.Responses {
 		if r.Panic != "" {
-			add("C06", "request-panicked", fmt.Sprintf("request %d: %s", i, r.Panic))
+			sig := "request-panicked"
+			if sc.Reqs[i].IK != "" {
+				for _, l := range ex.Disk {
+					if l.IdempotencyKey == sc.Reqs[i].IK && !matchesKind(sc.Reqs[i], l) {
+						sig += ":idempotency-key-stored-by-another-kind-of-write"
+						break
+					}
+				}
+			}
+			add("C06", sig, fmt.Sprintf("request %d: %s", i, r.Panic))
 		}
 	}
 	return fs
@@ -459,6 +503,20 @@ func entryKey(l *ledger.ChainedLog) string {
 		return fmt.Sprintf("delmeta %s %v %s ik=%q", p.TargetType, p.TargetID, p.Key, l.IdempotencyKey)
 	}
 	return "?"
+}
+
+func matchesKind(r engx.Req, l *ledger.ChainedLog) bool {
+	switch l.Data.(type) {
+	case ledger.NewTransactionLogPayload:
+		return r.Kind == "create"
+	case ledger.RevertedTransactionLogPayload:
+		return r.Kind == "revert"
+	case ledger.SetMetadataLogPayload:
+		return r.Kind == "savemeta"
+	case ledger.DeleteMetadataLogPayload:
+		return r.Kind == "delmeta"
+	}
+	return false
 }
 
 func boolInt(b bool) int {
@@ -565,6 +623,8 @@ func scenarios() []Scenario {
 			{Kind: "savemeta", Target: "TRANSACTION", TargetID: "7", Meta: map[string]string{"a": "1"}}}},
 		{Name: "ik-reuse-different-revert", Setup: []engx.Req{fund("alice", 100), xfer(10, "alice", "bob"), xfer(10, "alice", "bob"), ik(engx.Req{Kind: "revert", RevertID: 1}, "k9")},
 			Reqs: []engx.Req{ik(engx.Req{Kind: "revert", RevertID: 2}, "k9")}, Budget: 10},
+		{Name: "ik-reuse-across-kinds", Setup: []engx.Req{fund("alice", 100), ik(xfer(10, "alice", "bob"), "k6"), ik(metaA, "k8")},
+			Reqs: []engx.Req{ik(metaA, "k6"), ik(engx.Req{Kind: "delmeta", Target: "ACCOUNT", TargetID: "alice", Key: "a"}, "k6"), ik(xfer(1, "alice", "bob"), "k8")}, Budget: 60},
 		{Name: "three-same-ik", Setup: []engx.Req{fund("alice", 300)}, Budget: 500, Reqs: []engx.Req{
 			ik(xfer(10, "alice", "bob"), "k7"), ik(xfer(10, "alice", "bob"), "k7"), ik(xfer(10, "alice", "bob"), "k7")}},
 		{Name: "three-same-reference", Setup: []engx.Req{fund("alice", 300)}, Budget: 500, Reqs: []engx.Req{
@@ -684,9 +744,13 @@ func coqCase(sc Scenario, ex Exec) string {
 			cls, ok := map[string]string{"ik-busy": "EIkBusy", "conflict": "EConflict", "not-found": "ENotFound", "already-reverted": "EAlreadyReverted",
 				"revert-occurring": "ERevertOccurring", "insufficient": "EInsufficient", "no-postings": "ENoPostings"}[r.Err]
 			if !ok {
-				cls = "EKindMismatch (* " + strings.ReplaceAll(r.Err, "*)", "") + " " + r.Panic + " *)"
+				cls = "EKindMismatch (* " + strings.ReplaceAll(r.Err, "*)", "") + " *)"
 			}
 			x = "RErr " + cls
+		}
+		if r.Panic != "" {
+			resps = append(resps, fmt.Sprintf("(%d, RErr EKindMismatch)", 100+i)) // the only panic the model knows
+			continue
 		}
 		if r.Err == "" && !r.OK {
 			continue // never started
